@@ -331,8 +331,8 @@ func (x *Exec) tensorNew(fr *Frame, i *ssa.Call, opts Val) Val {
 	shp := x.newIntArray(st, "shape")
 	vecShape := and(hasBack, not(hasShape))
 	rank := x.define("new_trank", SInt, ite(hasScal, "0", ite(vecShape, ite(eq(bLen, "1"), "0", "1"), dLen)))
-	x.emit(sx("assert", fmt.Sprintf("(forall ((i Int)) (! (=> (and (<= 0 i) (< i %s)) (= (select (select %s %s) i) (ite %s %s (select (select %s %s) (+ %s i))))) :pattern ((select (select %s %s) i))))",
-		rank, intH, shp, vecShape, bLen, intH, dBase, dOff, intH, shp)))
+	x.assume(fr.curPC, fmt.Sprintf("(forall ((i Int)) (! (=> (and (<= 0 i) (< i %s)) (= (select (select %s %s) i) (ite %s %s (select (select %s %s) (+ %s i))))) :pattern ((select (select %s %s) i))))",
+		rank, intH, shp, vecShape, bLen, intH, dBase, dOff, intH, shp))
 	x.ghostSet(st, "t$rank", t, rank)
 	x.ghostSet(st, "t$shp", t, shp)
 	dt := ite(hasScal, scode, ite(hasBack, dcode, ite(hasOf, x.ghostGet(st, "co$dtype", ofOpt), "0")))
